@@ -75,6 +75,15 @@ CHECKS = {
             "appending rows changes nothing; finiteness patterns must agree too.",
             "Tolerance 1e-9 (float64; 1e-6 for inverses), 5e-3 (float32, forward-type targets only) because BLAS/vector code "
             "paths differ per batch size; saturating chains are inconclusive.", "DESIGN.md 3/C12"),
+    "C13": ("Hypothesis-generated call sequences on transforms/flows/distributions with inputs and contexts presented as views, "
+            "slices and requires_grad leaves; bit-level before/after comparison of caller tensors and state_dict; repeated calls "
+            "under differing RNG states",
+            "Exploration: sequences of 2-5 calls (forward, inverse, log_prob, sample, sample_and_log_prob, transform_to_noise, "
+            "mean) in eval and train mode: caller tensors (and the base of a slice) unchanged bit-for-bit, eval leaves every "
+            "parameter/buffer unchanged and deterministic calls do not depend on the RNG, train changes only normalisation "
+            "statistics / ActNorm's one-off initialisation.",
+            "Value-preserving in-place writes are unobservable and not reported; calls that raise on exotic presentations are not "
+            "violations.", "DESIGN.md 3/C13"),
     "C14": ("Hypothesis-generated operation histories on ActNorm/BatchNorm run in lock-step with a reference model of the "
             "documented life-cycle; outputs, log-dets and state_dict compared after every step",
             "Exploration: histories over train/eval/forward/inverse/save+load into a fresh instance/deepcopy, 2-D and 4-D batches, "
